@@ -405,6 +405,12 @@ package core
 //@ callreq json.Unmarshal: !res(1, v.(ssz.Unmarshaler)) || ncalls(unmarshaller.UnmarshalSSZ) == 1
 //@ ensures res(1, v.(ssz.Unmarshaler)) ==> ncalls(unmarshaller.UnmarshalSSZ) == 1
 //@ ensures ncalls(json.Unmarshal) <= 1
+// A payload that one of the two decoders accepted is accepted (no check after a successful decode may reject what the
+// node itself encodes), and nothing is accepted that neither decoder accepted.
+//@ ghost okDec int
+//@ ghostafter unmarshaller.UnmarshalSSZ: okDec = okDec + ite(err == nil, 1, 0)
+//@ ghostafter json.Unmarshal: okDec = okDec + ite(err == nil, 1, 0)
+//@ ensures result == nil <==> okDec > old(okDec)
 
 //@ func marshal
 //@ props C14
